@@ -69,16 +69,35 @@ def run_harness(args, profile="debug", stdin_path=None, stdout_path=None, timeou
         e.update(env)
     fin = open(stdin_path, "rb") if stdin_path else subprocess.DEVNULL
     fout = open(stdout_path, "ab") if stdout_path else subprocess.PIPE
+    os.makedirs(WORK, exist_ok=True)
+    errp = os.path.join(WORK, "stderr.%d.%d" % (os.getpid(), threading.get_ident()))
+    ferr = open(errp, "wb")
+
+    def tail():
+        try:
+            with open(errp, "rb") as f:
+                f.seek(0, 2)
+                n = f.tell()
+                f.seek(max(0, n - 4000))
+                return f.read().decode("utf8", "replace")
+        except OSError:
+            return ""
     try:
-        p = subprocess.run([exe] + [str(a) for a in args], stdin=fin, stdout=fout, stderr=subprocess.PIPE, timeout=timeout, env=e)
-        return p.returncode, p.stderr.decode("utf8", "replace")[-4000:], (p.stdout if not stdout_path else None)
+        p = subprocess.run([exe] + [str(a) for a in args], stdin=fin, stdout=fout, stderr=ferr, timeout=timeout, env=e)
+        ferr.close()
+        return p.returncode, tail(), (p.stdout if not stdout_path else None)
     except subprocess.TimeoutExpired:
-        return "timeout", "", None
+        ferr.close()
+        return "timeout", tail(), None
     finally:
         if stdin_path:
             fin.close()
         if stdout_path:
             fout.close()
+        try:
+            os.remove(errp)
+        except OSError:
+            pass
 
 
 def count_lines(path):
@@ -118,6 +137,45 @@ def run_harness_supervised(args, out_path, profile="debug", timeout=1800, env=No
         if rc not in ("timeout",) and not (isinstance(rc, int) and rc < 0) and rc != 134 and rc != 101:
             raise ToolError("harness failed rc=%s: %s" % (rc, err))
     raise ToolError("too many worker restarts")
+
+
+def run_harness_parallel(mode, cases, seed, nrand, trace, wd, profile="debug", extra=(), k=8, timeout=1800, env=None):
+    """Split the TLC cases round-robin over k supervised workers (each also produces nrand/k seeded cases of
+    its own, seed = seed*1000+i), concatenate their outputs.  Returns the list of abort records."""
+    n = count_lines(cases) if cases else 0
+    k = max(1, min(k, (n + nrand) // 50 + 1))
+    parts = []
+    if cases:
+        fs = [open(os.path.join(wd, "hc.%d.ndjson" % i), "w") for i in range(k)]
+        with open(cases) as f:
+            for j, line in enumerate(f):
+                fs[j % k].write(line)
+        for f in fs:
+            f.close()
+    build_harness(profile)
+
+    def one(i):
+        out = os.path.join(wd, "ht.%d.ndjson" % i)
+        a = [mode, "--seed", int(seed) * 1000 + i, "--n", nrand // k + (1 if i < nrand % k else 0)] + list(extra)
+        if cases:
+            a += ["--cases", os.path.join(wd, "hc.%d.ndjson" % i)]
+        ab = run_harness_supervised(a, out, profile=profile, timeout=timeout, env=env)
+        return out, ab
+    aborts = []
+    with ThreadPoolExecutor(max_workers=k) as ex:
+        rs = list(ex.map(one, range(k)))
+    with open(trace, "w") as t:
+        for out, ab in rs:
+            aborts += ab
+            with open(out) as f:
+                shutil.copyfileobj(f, t)
+            os.remove(out)
+    for i in range(k):
+        try:
+            os.remove(os.path.join(wd, "hc.%d.ndjson" % i))
+        except OSError:
+            pass
+    return aborts
 
 
 # ----------------------------------------------------------------------------- TLC
@@ -452,7 +510,7 @@ class Result:
         return 1 if fresh else 0
 
 
-def standard_flow(res, wd, gens, mode, trace_module, nrand, seed, profile="debug", extra_cases=(), harness_extra=(), shards=None, gen_workers=None):
+def standard_flow(res, wd, gens, mode, trace_module, nrand, seed, profile="debug", extra_cases=(), harness_extra=(), shards=None, gen_workers=None, hshards=8):
     """gens: list of dicts(module, constants, invariants, [simulate]).  TLC generates the cases and checks
     the model invariants; the harness runs the real code on them (+ nrand of its own seeded cases);
     the Trace_* spec referees.  Returns (trace_path, {line_no: [mismatch tags]})."""
@@ -478,7 +536,9 @@ def standard_flow(res, wd, gens, mode, trace_module, nrand, seed, profile="debug
             out.write(json.dumps(c) + "\n")
             tot += 1
     trace = os.path.join(wd, "trace.ndjson")
-    aborts = run_harness_supervised([mode, "--cases", cases, "--seed", seed, "--n", nrand] + list(harness_extra), trace, profile=profile)
+    t0 = time.time()
+    aborts = run_harness_parallel(mode, cases, seed, nrand, trace, wd, profile=profile, extra=harness_extra, k=hshards)
+    log("[cv] %s: %d lines in %.1fs, %d worker aborts" % (mode, count_lines(trace), time.time() - t0, len(aborts)))
     res.cov["parts"]["worker_aborts"] = len(aborts)
     v = tlc_validate(trace_module, trace, wd, shards=shards)
     res.add_states(v)
